@@ -51,8 +51,19 @@ def condition(draw, depth):
         w = draw(st.sampled_from([1, 4, 8]))
         return m.ExprOp(draw(st.sampled_from(exprgen.CMP)), draw(exprgen.ids(w)), draw(st.one_of(exprgen.ids(w), exprgen.ints(w))))
     if k < 8:
-        w = draw(st.sampled_from([2, 4, 8]))
-        return m.ExprOp('&', draw(exprgen.ids(w)), draw(exprgen.ints(w)))
+        # operator-shaped conditions over multi-bit operands (a rewrite of "negated flag"-like conditions is only
+        # valid for 1-bit operands): X op const with const in {1, mask, msb, ...}, -X, extensions
+        w = draw(st.sampled_from([1, 2, 4, 8]))
+        x = draw(exprgen.ids(w))
+        shape = draw(st.integers(0, 5))
+        if shape <= 3:
+            op = ['&', '^', '|', '+'][shape]
+            cst = draw(st.one_of(st.sampled_from([1, (1 << w) - 1, 1 << (w - 1), 0]).map(lambda v: m.ExprInt(v, w)),
+                                 exprgen.ints(w)))
+            return m.ExprOp(op, x, cst)
+        if shape == 4:
+            return m.ExprOp('-', x)
+        return m.ExprOp("zeroExt_%d" % (w + 4), x)
     return draw(crich(cw, max(depth - 1, 0)))
 
 
